@@ -99,6 +99,7 @@ BASE_DOCS = [
     '<svg id="root">%s<rect id="t" width="8" height="8"/><rect id="t2" x="9" width="8" height="8"/><rect id="t3" x="18" width="8" height="8"/>%s</svg>' % (R1, R2),
     '<svg id="root">%s<g id="ga"><g id="gb"><g id="t" transform="translate(1)"><rect id="c1" width="2" height="2"/></g><use id="u" href="#c1" x="5"/></g></g>%s</svg>' % (R1, R2),
     '<svg id="root"%s><defs id="d"><rect id="p" width="2" height="2"/></defs>%s<use id="t" xlink:href="#p" href="#p" x="4"/><use id="t2" xlink:href="#t" y="4"/>%s</svg>' % (XL, R1, R2),
+    '<svg id="root"><defs id="d"><rect id="p" width="2" height="2"/><use id="ua" href="#p"/><use id="ub" href="#ua"/><use id="uc" href="#ub"/></defs>%s<use id="t" href="#uc"/>%s</svg>' % (R1, R2),
 ]
 
 # ------------------------------------------------------------------ fault pools: attribute -> [(malformed text, fault kind)]
@@ -116,7 +117,9 @@ POOL = {
     "viewBox": [("0 0 100", "three-numbers"), ("a b c d", "nonnumeric"), ("0 0 0 0", "zero-size"), ("0,0,-5,5", "negative-size")],
     "d": [("M", "move-without-coordinates"), ("M0,0 h", "command-without-args"), ("h 5", "no-initial-move"),
           ("a 1 1 0 0 0 5 5", "no-initial-move"), ("M0,0 L", "command-without-args"), ("M0,0 A 5 5 0 2 1 3 3", "arc-bad-flag"),
-          ("M0 0 L 1", "odd-coordinates"), ("M0,0 Lé 5 ☃", "garbage-characters"), ("M1e999 0", "overflow")],
+          ("M0 0 L 1", "odd-coordinates"), ("M0,0 Lé 5 ☃", "garbage-characters"), ("M1e999 0", "overflow"),
+          ("M 1,1 L 5 z", "close-in-place-of-number"), ("M1,1 h z", "close-in-place-of-number"),
+          ("M0,0 L 10,10 L", "command-without-args"), ("M0,0 C 1,1 2,2 3,3 S", "command-without-args")],
     "style": [("fill:rgb(1.5,2,3)", "fill-rgb-float"), ("stroke-width:abc", "length-nonnumeric"), (":::", "no-declaration"),
               ("fill", "no-declaration")],
 }
@@ -226,6 +229,15 @@ def single_faults(doc_index, text):
                 edits += [[u2.get("id"), h, "#" + t2.get("id")] for h in u2.attrib if local(h) == "href"]
                 out.append({"doc": doc_index, "edits": edits, "kind": "cyclic-use", "offending": [u1.get("id"), u2.get("id")],
                             "variant": "mutual"})
+    # a chain that runs into a cycle it is not part of: e -> a -> b -> c -> b (the entry and the first hop lie outside)
+    named = [u for u in uses if u.get("id")]
+    for quad in itertools.islice(itertools.permutations(named, 4), 6):
+        e, a, b, c = quad
+        edits = []
+        for src, dst in ((e, a), (a, b), (b, c), (c, b)):
+            edits += [[src.get("id"), h, "#" + dst.get("id")] for h in src.attrib if local(h) == "href"]
+        out.append({"doc": doc_index, "edits": edits, "kind": "cyclic-use", "offending": [x.get("id") for x in quad],
+                    "variant": "chain-into-cycle"})
     return out
 
 
@@ -366,6 +378,27 @@ def reference_doc(base_text, offending):
     return ser(root)
 
 
+_REF = {}
+
+
+def refmod_of(mod):
+    """a second, independent instance of the library (same file, separate module object and therefore separate class
+    and module level state).  The documents *without* the offending elements are parsed with it, so that state which a
+    failed element leaves behind in the first instance (a shared lexer, a cache, a registry) cannot also colour the
+    expectation: 'geometry as when the offending element is removed' means removed from everything the parser saw."""
+    if id(mod) not in _REF:
+        import importlib.util
+        import sys as _sys
+
+        inner = _sys.modules.get(mod.__name__ + ".svgelements", mod) if hasattr(mod, "__path__") else mod
+        spec = importlib.util.spec_from_file_location("svgelements_reference_instance", inner.__file__)
+        m = importlib.util.module_from_spec(spec)
+        _sys.modules[spec.name] = m
+        spec.loader.exec_module(m)
+        _REF[id(mod)] = m
+    return _REF[id(mod)]
+
+
 def evaluate(mod, base_text, faults, cache=None, limit=5):
     """run one faulted document.  -> dict(doc, ref, failures=[dict(key, expected, got)], compared, isolated)"""
     edits = [e for f in faults for e in f["edits"]]
@@ -393,13 +426,14 @@ def evaluate(mod, base_text, faults, cache=None, limit=5):
     if cache is not None and ck in cache:
         want, isolated = cache[ck]
     else:
-        rtree, rerr = guarded_parse(mod, ref)
-        btree, berr = guarded_parse(mod, base_text)
+        rm = refmod_of(mod)
+        rtree, rerr = guarded_parse(rm, ref)
+        btree, berr = guarded_parse(rm, base_text)
         if rerr is not None or berr is not None:
             want, isolated = None, False
         else:
-            want = signature(mod, rtree, excluded)
-            isolated = diff_signatures(want, signature(mod, btree, excluded)) is None
+            want = signature(rm, rtree, excluded)
+            isolated = diff_signatures(want, signature(rm, btree, excluded)) is None
         if cache is not None:
             cache[ck] = (want, isolated)
     res["isolated"] = isolated
